@@ -101,7 +101,7 @@ def _run_op(op, execs, outdir):
 
 
 PROBES = ["pt_same", "pt_new", "enum_same", "blocks_same", "cms_new", "mini_new", "truth_same", "truth_new", "again_same",
-          "newcoll_same", "fn_same", "rewrite_same", "rewrite_mini", "cmsdef_new", "minidef_new"]
+          "newcoll_same", "fn_same", "rewrite_same", "rewrite_mini", "cmsdef_new", "minidef_new", "recoll_same"]
 
 
 def _run_probe(probe, execs, outdir, fresh=False):
@@ -138,6 +138,12 @@ def _run_probe(probe, execs, outdir, fresh=False):
         # a method whose type comes from the backend's own default declarations (bool), on each CMS backend
         backend = "cms_aod" if probe == "cmsdef_new" else "cms_miniaod"
         exe, src = None, _query(backend, [], "j.isPFMuon()")
+    elif probe == "recoll_same":
+        # the probe itself declares the collection an earlier query may have declared - DIFFERENTLY (another container,
+        # header and library): its own declaration is the one that counts
+        md = dict(_COLL_MD["atlas"]("VpLeakColl"), container_type="xAOD::VpOtherContainer", element_type="xAOD::VpOther",
+                  include_files=["xAODVpOther/VpOtherContainer.h"], link_libraries=["xAODVpOther"])
+        exe, backend, src = execs["same"], "atlas", _query("atlas", [md], coll="VpLeakColl")
     elif probe == "newcoll_same":
         # a collection no backend knows: refused in a fresh process, and after any history
         exe, backend, src = execs["same"], "atlas", _query("atlas", [], coll="VpLeakColl")
